@@ -14,7 +14,7 @@ CHECKS = {
   MODEL_NOTE, "DESIGN.md §2, §3 C01"),
  "C05": ("sqlbind",
   "proptest program generation + comparison of the resolver's final frame with the binder-computed / prepared-statement column list (all 12 dialects)",
-  "The emitted SQL of every dialect is re-parsed and its output column list computed by an independent binder (expanding *, t.*, EXCLUDE, CTEs, set operations); for sqlite/generic also the prepared statement's columns. Arity and every named column of the resolver's final frame (RQ relation.columns) must agree.",
+  "The emitted SQL of every dialect is re-parsed and its output column list computed by an independent binder (expanding *, t.*, EXCLUDE, CTEs, set operations); for sqlite/generic also the prepared statement's columns. Arity and every named column of the resolver's final frame (RQ relation.columns) must agree; the branches of a set operation must have equal arity. Exclusions over wildcard frames (joins of two wildcard relations, select !{..}) are decided strictly under duckdb / snowflake / bigquery.",
   "Trusted: sqlparser 0.60 as per-dialect parser, the binder in harness/src/sqlbind.rs, RQ relation.columns as the frame. Recorded findings (dedup, helper leak, order) are attributed by exact predicates.", "DESIGN.md §3 C05"),
  "C06": ("model",
   "proptest base-program generation + tape-chosen rewrites (let/into extraction, function abstraction, filter split/merge, identity insertion, module move) with a metamorphic oracle on SQLite results",
@@ -25,12 +25,12 @@ CHECKS = {
   "Every accepted generated program (plus dialect-sensitive extras) is compiled for all 12 dialects; each text must parse as exactly one query under sqlparser's parser for that dialect and every table, qualifier and column must resolve in the scope of its clause; set operations must have equal arity.",
   "Trusted: sqlparser 0.60 per dialect (known gaps excluded per dialect and construct: ClickHouse infix DIV, Redshift zero-column SELECT, AnsiDialect stricter than Generic) and the binder. Engine semantics other than SQLite's are not executed.", "DESIGN.md §3 C07"),
  "C08": ("api",
-  "proptest value-first literal generation (own encoder for every documented spelling) + execution on SQLite and per-dialect token-structure comparison",
-  "A value is generated first and spelled in a documented form; the value SQLite returns must be the value, and under every dialect's tokenizer the statement must have the token structure it has with an innocuous literal, with the string token unescaping to the value.",
+  "proptest value-first literal generation (own encoder for every documented spelling) and f-string composition over fragments / interpolated constants / columns + execution on SQLite and per-dialect token-level comparison",
+  "A value is generated first and spelled in a documented form; the value SQLite returns must be the value, and under every dialect's tokenizer the statement must have the token structure it has with an innocuous literal, with the string token unescaping to the value. f-strings built from fragments, let-bound constants, a literal passed through a function parameter and a column must evaluate to the concatenation (SQLite) and their CONCAT / || pieces must concatenate to it under every dialect's tokenizer.",
   "Trusted: SQLite as executor (its decimal parsing within 1e-14), sqlparser's per-dialect tokenizer as the model of each engine's lexical rules.", "DESIGN.md §3 C08"),
  "C09": ("sqlbind",
   "proptest program generation with a hazardous identifier pool + differential execution on SQLite + case-sensitive binding under 12 dialects",
-  "Tables, let-tables, aliases and columns get hazardous names (keywords, spaces, quotes, mixed case, non-ASCII, leading digits, table_N, _expr_N); rows are compared with the reference interpreter on SQLite tables created with exactly those names, and the SQL of every dialect must bind case-sensitively against them.",
+  "Tables, let-tables, aliases and columns get hazardous names (keywords, spaces, quotes, mixed case, non-ASCII, leading digits, table_N, _expr_N); rows are compared with the reference interpreter on SQLite tables created with exactly those names, and the SQL of every dialect must bind case-sensitively against them. A second generator joins chains of relations with hazardous names / aliases, some repeated without alias so that the compiler invents aliases; marker columns decide which relation a qualified column came from.",
   MODEL_NOTE + " Case folding of engines other than SQLite is not executed.", "DESIGN.md §3 C09"),
  "C10": ("api",
   "proptest generation of well-scoped programs + one scope-breaking edit (5 classes), oracle = compile returns Err",
@@ -39,7 +39,7 @@ CHECKS = {
  "C11": ("history",
   "proptest generation of call histories over several threads; oracle = canonical output from fresh child processes (run twice)",
   "Histories of 3-12 calls (compile, pl_to_rq, pl_to_prql, permuted multi-file project) on 1-8 barrier-released threads, including failing and panicking calls; every output must equal that of the same call in a fresh process, and two fresh processes must agree.",
-  "Thread schedules are sampled, not owned; hash seeds vary by process and thread. Three defects found this way were repaired by fix: commits.", "DESIGN.md §3 C11"),
+  "Thread schedules are sampled, not owned; hash seeds vary by process and thread. Five defects found this way were repaired by fix: commits (hash-order dependent error text, formatting, column order, hint order, root-module choice).", "DESIGN.md §3 C11"),
  "C12": ("fuzz",
   "proptest token-level mutation of valid programs + structure-aware mutation of PL/RQ JSON + nesting ladder, driven in isolated worker processes; oracle = no panic / deadly signal",
   "Mutated sources and mutated PL/RQ JSON documents are driven through every public stage in worker processes (a stack overflow kills the worker, not the check); a panic or abort is a violation unless it matches a recorded panic (file + message prefix).",
@@ -47,7 +47,7 @@ CHECKS = {
  "C13": ("api",
   "proptest fault injection into valid programs with ASCII / multi-byte / CRLF padding; validity predicate over every ErrorMessage + metamorphic padding invariance",
   "Each returned error must have a reason, a span inside the source (character offsets), a location equal to the span's line/column and a rendered message quoting that line; replacing ASCII padding before the fault by multi-byte text of equal character length must not move span or location.",
-  "Lexer-class faults are strict under multi-byte padding; parser/resolver-class faults under multi-byte padding are the recorded byte-offset finding. Multi-file projects are not generated.", "DESIGN.md §3 C13"),
+  "Lexer-class faults are strict under multi-byte padding; parser/resolver-class faults under multi-byte padding are the recorded byte-offset finding. Faults inside f-/s-string placeholders (with escape sequences around) are included; the span of `Unknown name X` must cover X. Multi-file projects are not generated.", "DESIGN.md §3 C13"),
  "C02": ("model",
   "exhaustive (parent, child, side) operator table + proptest random typed expression trees, each evaluated by SQLite over a cross-product value table against a reference scalar evaluator of the intended tree",
   "Every type-correct (parent operator, child operator, left|right) combination (exhaustive within that table) and random typed trees to depth 5 are printed with the parentheses the documented table requires, compiled for sqlite/generic, evaluated by SQLite on all 675 operand combinations of the value domain and compared per row with the reference evaluator.",
@@ -63,11 +63,11 @@ CHECKS = {
  "C14": ("api",
   "proptest program generation + format/re-parse round trip, idempotence and same-SQL metamorphic oracle",
   "Generated programs and the repository's queries are formatted, re-parsed and compared as syntax trees without spans/doc comments; formatting twice must be a fixed point; both texts must compile to the same SQL.",
-  "Trusted: serde's JSON form of the PL tree as the notion of 'same syntax tree'. One recorded finding (integral float literals).", "DESIGN.md §3 C14"),
+  "Trusted: serde's JSON form of the PL tree as the notion of 'same syntax tree'. Programs are wrapped in lexically hazardous identifiers and string values (quotes, backslashes, control characters, $, non-ASCII). Recorded findings: integral float literals, an alias literally named `*`; two formatter defects were repaired by fix: commits.", "DESIGN.md §3 C14"),
  "C15": ("api",
   "proptest program generation x dialect/options + JSON round-trip and staged-vs-one-shot differential oracle",
   "PL and RQ must survive JSON (equal value, identical re-serialisation) and the staged chain through both JSON documents must produce the same SQL or the same errors (kind, code, reason, hints, span) as compile().",
-  "Trusted: PartialEq of the PL/RQ types. Differences must persist over repeated evaluation because compilation is not deterministic (finding C11-column-order-hash-dependent).", "DESIGN.md §3 C15"),
+  "Trusted: PartialEq of the PL/RQ types. Differences must persist over repeated evaluation (compilation used to be non-deterministic; repaired). Identifiers and strings needing JSON escapes are generated.", "DESIGN.md §3 C15"),
  "C16": ("rqcheck",
   "proptest program generation + invariant validator over the resolver's RQ (history-free validity predicate)",
   "The RQ of every accepted generated program (all constructs enabled) is checked for unique definition, def-before-use and visibility of column ids, declared-before-use table ids, table-reference columns, From..Select pipeline shape and arity, is_aggregation consistency.",
